@@ -539,3 +539,198 @@ Proof.
     unfold xspec_masks in *. cbv zeta in *. f_equal. apply masks_eq. intro d.
     destruct d; cbn [mk masks_of m_t m_f m_b xm_masks] in *; [apply (Hd DT) | apply (Hd DF) | apply (Hd DB)].
 Qed.
+
+(* ---------------------------------------------------------------- after a call that raised part-way *)
+Definition dim_index (d : dim) : nat := match d with DT => 0 | DF => 1 | DB => 2 end%nat.
+(* the spec starts dimension d afresh in this call *)
+Definition xspec_fresh (xo : xobs) (m : xmasks) (xkw : xkwargs) (d : dim) : bool :=
+  nth (dim_index d) (xspec_dims xo m xkw) false.
+
+Lemma xpre_atoms : forall xo a b kw spw sub, xpre xo a b kw = inr (spw, sub) ->
+  atom_of a (lookup "spw" kw) = Some spw /\ atom_of b (lookup "subarray" kw) = Some sub.
+Proof.
+  intros xo a b kw spw sub H. unfold xpre in H.
+  destruct (_ && existsb _ kw); [discriminate|].
+  destruct (atom_of a _) as [z|]; [|discriminate]. destruct (negb _); [discriminate|].
+  destruct (atom_of b _) as [z'|]; [|discriminate]. destruct (negb _); [discriminate|].
+  destruct (negb _); [discriminate|]. inversion H. subst. split; reflexivity.
+Qed.
+
+Lemma xspec_fresh_XR : forall xo s xkw spw sub d,
+  xpre xo (x_spw s) (x_sub s) (elab_kw (x_vocab xo) xkw) = inr (spw, sub) ->
+  xspec_fresh xo (xm_of s) xkw d = XR (x_spw s) (x_sub s) (elab_kw (x_vocab xo) xkw) spw sub d.
+Proof.
+  intros xo s xkw spw sub d P. unfold xspec_fresh, xspec_dims. cbv zeta.
+  change (xm_spw (xm_of s)) with (x_spw s). change (xm_sub (xm_of s)) with (x_sub s).
+  destruct (xpre_atoms _ _ _ _ _ _ P) as [A B]. rewrite A, B.
+  rewrite (XR_spec _ _ _ _ _ d (xpre_wellformed _ _ _ _ _ _ P)). destruct d; reflexivity.
+Qed.
+
+(* RECOVERY.  In whatever state earlier calls (accepted, rejected or raised part-way) left the data set: an accepted
+   call re-establishes the strong invariant, the spec accepts it too, and every dimension the call starts afresh
+   holds exactly the documented combination. *)
+Lemma xrecovery : forall xo s xkw s', WInv xo s -> NoDup (map fst xkw) -> xselect xo s xkw = (OOk, s') ->
+  XInv xo s' /\ fst (xspec_select xo (xm_of s) xkw) = OOk /\
+  forall d, xspec_fresh xo (xm_of s) xkw d = true ->
+    mk d (masks_of (x_core s')) = mk d (xm_masks (snd (xspec_select xo (xm_of s) xkw))).
+Proof.
+  intros xo s xkw s' W N H. split; [eapply xselect_XInv; eauto|].
+  rewrite xspec_closed. cbv zeta. set (kw := elab_kw (x_vocab xo) xkw).
+  assert (Nk : NoDup (keys kw)) by (unfold kw; rewrite keys_elab_kw; exact N).
+  change (xm_spw (xm_of s)) with (x_spw s). change (xm_sub (xm_of s)) with (x_sub s).
+  destruct (xselect_cases xo s xkw) as [[oc [P E]]|[spw [sub [P [Rs [Rb E]]]]]]; fold kw in P; rewrite E in H.
+  - exfalso. inversion H; subst. unfold xpre in P.
+    destruct (_ && existsb _ _); [discriminate|].
+    destruct (atom_of _ _); [|discriminate]. destruct (negb _); [discriminate|].
+    destruct (atom_of _ _); [|discriminate]. destruct (negb _); [discriminate|].
+    destruct (negb _); discriminate.
+  - rewrite P. pose proof (xpre_wellformed _ _ _ _ _ _ P) as Wf.
+    unfold xstep in H. cbv zeta in H. fold (view_at xo spw sub) in H. fold kw in H.
+    destruct (all_ok (view_at xo spw sub) (xsel_of _ _ _)) eqn:A; [|discriminate].
+    assert (Ak : all_ok (view_at xo spw sub) kw = true).
+    { unfold all_ok. apply forallb_forall. intros [k v] Hin. simpl.
+      destruct (special_dec k) as [S|S]; [rewrite (crit_special _ k v S); reflexivity|].
+      unfold all_ok in A. rewrite forallb_forall in A.
+      apply (A (k, v)). apply kw_in_xsel_of; assumption. }
+    rewrite Ak. cbn [fst snd]. split; [reflexivity|].
+    intros d Hf. unfold kw in P. rewrite (xspec_fresh_XR xo s xkw spw sub d P) in Hf. fold kw in Hf, P.
+    inversion H; subst s'. cbn [x_core with_core].
+    change (mk d (masks_of ?c)) with (mget d c).
+    apply xstep_dim; auto.
+    intros i k v m _ Hin Hp C. exfalso.
+    pose proof (crit_mask_group _ _ _ _ _ C) as M. rewrite (popped_gen _ _ _ M) in Hp.
+    unfold XR in Hf. congruence.
+Qed.
+
+Lemma mk_mget : forall d c, mk d (masks_of c) = mget d c.
+Proof. intros. destruct d; reflexivity. Qed.
+
+(* select() without arguments always succeeds and restores everything recorded with the current window/subarray *)
+Lemma xselect_noarg : forall xo s, WInv xo s ->
+  exists s', xselect xo s [] = (OOk, s') /\ XInv xo s' /\ x_spw s' = x_spw s /\ x_sub s' = x_sub s /\
+    masks_of (x_core s') = {| m_t := wmask xo (x_spw s) (x_sub s);
+                               m_f := ones (dimlen (view_at xo (x_spw s) (x_sub s)) DF);
+                               m_b := ones (dimlen (view_at xo (x_spw s) (x_sub s)) DB) |}.
+Proof.
+  intros xo s W.
+  destruct (xselect xo s []) as [oc s'] eqn:H.
+  destruct (xselect_cases xo s []) as [[oc' [P E]]|[spw [sub [P [Rs [Rb E]]]]]]; cbn [elab_kw map] in P.
+  - exfalso. unfold xpre in P. cbn [lookup find existsb andb atom_of reset_wellformed negb] in P.
+    destruct W as [[A1 A2] [B1 B2] _ _ _].
+    assert (E1 : (0 <=? x_spw s) && (x_spw s <? Z.of_nat (List.length (x_spws xo))) = true)
+      by (apply andb_true_iff; split; [apply Z.leb_le | apply Z.ltb_lt]; lia).
+    assert (E2 : (0 <=? x_sub s) && (x_sub s <? Z.of_nat (List.length (x_subs xo))) = true)
+      by (apply andb_true_iff; split; [apply Z.leb_le | apply Z.ltb_lt]; lia).
+    rewrite E1, E2 in P. cbn in P. discriminate.
+  - assert (spw = x_spw s /\ sub = x_sub s) as [? ?].
+    { apply xpre_atoms in P. cbn [lookup find atom_of] in P. destruct P as [A B]. inversion A. inversion B. auto. }
+    subst spw sub. cbn [elab_kw map] in E. rewrite E in H.
+    unfold xstep in H. cbv zeta in H. fold (view_at xo (x_spw s) (x_sub s)) in H.
+    assert (Er : xreset (x_spw s) (x_sub s) [] (x_spw s) (x_sub s) = "TFB"%string).
+    { unfold xreset, xr1. rewrite !Z.eqb_refl. reflexivity. }
+    rewrite Er in H.
+    set (o := view_at xo (x_spw s) (x_sub s)) in *.
+    set (l := xsel_of (x_core s) "TFB" (xkw3 [] (x_spw s) (x_sub s))) in *.
+    (* no entry of the dictionary carries a mask any more *)
+    assert (Hn : forall k v, In (k, v) l -> crit o k v = CNone).
+    { intros k v Hin. apply in_xsel_of in Hin; [|constructor | apply (w_nodup _ _ W)].
+      destruct Hin as [S|[[]|[_ Hp]]]; [apply crit_special; exact S|].
+      destruct (key_dim k) as [d|] eqn:K; [|apply crit_none_of_key_dim; exact K].
+      assert (M : mem_string k (doc_group d) = true) by (apply key_dim_group; exact K).
+      rewrite (popped_gen _ _ _ M) in Hp. destruct d; discriminate. }
+    assert (A : all_ok o l = true).
+    { unfold all_ok. apply forallb_forall. intros [k v] Hin. simpl. rewrite (Hn k v Hin). reflexivity. }
+    assert (D : forall d, dmasks o d l = []).
+    { intro d. unfold dmasks. clear - Hn. induction l as [|[k v] t IH]; [reflexivity|].
+      cbn [flat_map fst snd]. rewrite (Hn k v (or_introl eq_refl)). apply IH.
+      intros k' v' Hin. apply Hn. right. exact Hin. }
+    rewrite A in H. inversion H; subst oc s'. eexists. split; [reflexivity|].
+    split; [apply (xselect_XInv xo s [] _ W (NoDup_nil _)); rewrite E; unfold xstep; cbv zeta;
+            fold (view_at xo (x_spw s) (x_sub s)); rewrite Er; fold o; fold l; rewrite A; reflexivity|].
+    cbn [x_core x_spw x_sub with_core]. split; [reflexivity|]. split; [reflexivity|].
+    unfold masks_of. f_equal.
+    + change (tk ?c) with (mget DT c). rewrite mget_loop_fn, D. cbn [fold_left mget set_sel xclear_fn tk has_char Ascii.eqb Bool.eqb orb].
+      apply window_mask_base.
+    + change (fk ?c) with (mget DF c). rewrite mget_loop_fn, D. reflexivity.
+    + change (bk ?c) with (mget DB c). rewrite mget_loop_fn, D. reflexivity.
+Qed.
+
+(* what a call that raised part-way leaves behind *)
+Lemma failed_call_state : forall xo s xkw s' spw sub,
+  WInv xo s -> NoDup (map fst xkw) ->
+  xpre xo (x_spw s) (x_sub s) (elab_kw (x_vocab xo) xkw) = inr (spw, sub) ->
+  xselect xo s xkw = (OFail, s') ->
+  let kw := elab_kw (x_vocab xo) xkw in
+  (* the window / subarray of the call are in force, the public attributes are NOT recomputed *)
+  x_spw s' = spw /\ x_sub s' = sub /\ x_pub s' = x_pub s
+  (* every keyword of the call - the offending one included - is now retained *)
+  /\ (forall k v, In (k, v) kw -> ~ special k -> In (k, v) (sel (x_core s')))
+  (* and one retained criterion cannot be evaluated *)
+  /\ (exists k v, In (k, v) (sel (x_core s')) /\ crit (view_at xo spw sub) k v = CErr)
+  /\ WInv xo s'.
+Proof.
+  intros xo s xkw s' spw sub W N P H kw. fold kw in P.
+  assert (Nk : NoDup (keys kw)) by (unfold kw; rewrite keys_elab_kw; exact N).
+  pose proof (xselect_WInv xo s xkw W N) as W'. rewrite H in W'. cbn [snd] in W'.
+  destruct (xselect_cases xo s xkw) as [[oc [P' E]]|[spw' [sub' [P' [Rs [Rb E]]]]]]; fold kw in P'; rewrite P in P'.
+  - discriminate.
+  - inversion P'; subst spw' sub'. rewrite E in H. unfold xstep in H. cbv zeta in H.
+    fold (view_at xo spw sub) in H. fold kw in H.
+    destruct (all_ok (view_at xo spw sub) _) eqn:A; [discriminate|]. inversion H; subst s'.
+    cbn [x_core x_spw x_sub x_pub with_core sel loop_fn set_sel].
+    split; [reflexivity|]. split; [reflexivity|]. split; [reflexivity|].
+    split; [|split; [|exact W']].
+    + intros k v Hin Hs. apply kw_in_xsel_of; assumption.
+    + unfold all_ok in A. apply Bool.not_true_iff_false in A. rewrite forallb_forall in A.
+      destruct (existsb (fun kv => is_cerr (crit (view_at xo spw sub) (fst kv) (snd kv)))
+                        (xsel_of (x_core s) (xreset (x_spw s) (x_sub s) kw spw sub) (xkw3 kw spw sub))) eqn:X.
+      * apply existsb_exists in X. destruct X as [[k v] [Hin Hc]]. exists k, v. split; [exact Hin|].
+        simpl in Hc. destruct (crit (view_at xo spw sub) k v); try discriminate. reflexivity.
+      * exfalso. apply A. intros kv Hin.
+        assert (Hx : existsb (fun kv => is_cerr (crit (view_at xo spw sub) (fst kv) (snd kv)))
+                        (xsel_of (x_core s) (xreset (x_spw s) (x_sub s) kw spw sub) (xkw3 kw spw sub)) = false) by exact X.
+        rewrite <- Bool.not_true_iff_false in Hx. destruct (is_cerr _) eqn:C; [|reflexivity].
+        exfalso. apply Hx. apply existsb_exists. exists kv. split; assumption.
+Qed.
+
+(* the offending criterion poisons every later call that neither replaces it nor starts its dimension afresh *)
+Lemma poison_persists : forall xo s xkw k v spw sub,
+  WInv xo s -> NoDup (map fst xkw) ->
+  xpre xo (x_spw s) (x_sub s) (elab_kw (x_vocab xo) xkw) = inr (spw, sub) ->
+  In (k, v) (sel (x_core s)) -> crit (view_at xo spw sub) k v = CErr ->
+  lookup k (elab_kw (x_vocab xo) xkw) = None ->
+  popped (xreset (x_spw s) (x_sub s) (elab_kw (x_vocab xo) xkw) spw sub) k = false ->
+  fst (xselect xo s xkw) = OFail.
+Proof.
+  intros xo s xkw k v spw sub W N P Hin C Hl Hp. set (kw := elab_kw (x_vocab xo) xkw) in *.
+  assert (Nk : NoDup (keys kw)) by (unfold kw; rewrite keys_elab_kw; exact N).
+  destruct (xselect_cases xo s xkw) as [[oc [P' E]]|[spw' [sub' [P' [Rs [Rb E]]]]]]; fold kw in P'; rewrite P in P'.
+  - discriminate.
+  - inversion P'; subst spw' sub'. rewrite E. unfold xstep. cbv zeta. fold (view_at xo spw sub). fold kw.
+    assert (A : all_ok (view_at xo spw sub) (xsel_of (x_core s) (xreset (x_spw s) (x_sub s) kw spw sub) (xkw3 kw spw sub)) = false).
+    { apply Bool.not_true_iff_false. intro A. unfold all_ok in A. rewrite forallb_forall in A.
+      assert (Hk : In (k, v) (xsel_of (x_core s) (xreset (x_spw s) (x_sub s) kw spw sub) (xkw3 kw spw sub))).
+      { apply lookup_some_in. rewrite lookup_xsel_of by (apply NoDup_xkw3; exact Nk). rewrite lookup_xkw3.
+        assert (Hns : ~ special k).
+        { intro S. rewrite (crit_special _ k v S) in C. discriminate. }
+        destruct (String.eqb_spec k "subarray"); [exfalso; apply Hns; right; right; assumption|].
+        destruct (String.eqb_spec k "spw"); [exfalso; apply Hns; right; left; assumption|].
+        destruct (String.eqb_spec k "reset"); [exfalso; apply Hns; left; assumption|].
+        rewrite Hl, Hp. cbn [negb]. apply in_lookup; [apply (w_nodup _ _ W) | exact Hin]. }
+      specialize (A _ Hk). simpl in A. rewrite C in A. discriminate. }
+    rewrite A. reflexivity.
+Qed.
+
+(* ---------------------------------------------------------------- what a change of window / subarray resets *)
+Lemma xspec_reset_window : forall kw chg_sub,
+  xspec_reset kw true chg_sub DT = true /\ xspec_reset kw true chg_sub DF = true
+  /\ xspec_reset kw true false DB = spec_reset kw DB.
+Proof. intros. unfold xspec_reset. rewrite !orb_true_r. cbn. rewrite !orb_false_r. repeat split; reflexivity. Qed.
+
+Lemma xspec_reset_subarray : forall kw chg_spw,
+  xspec_reset kw chg_spw true DT = true /\ xspec_reset kw chg_spw true DB = true
+  /\ xspec_reset kw false true DF = spec_reset kw DF.
+Proof. intros. unfold xspec_reset. rewrite !orb_true_r. cbn. rewrite !orb_false_r. repeat split; reflexivity. Qed.
+
+Lemma xspec_reset_same : forall kw d, xspec_reset kw false false d = spec_reset kw d.
+Proof. intros. unfold xspec_reset. cbn. rewrite !orb_false_r. reflexivity. Qed.
